@@ -9,7 +9,10 @@
 // pending calls; the executor or the agent of a task of the environment lost
 // before the destroy (Mesos FAILURE event, with and without the terminal status
 // updates: the task is unlocked but keeps its parent role, the environment's
-// watcher takes it to ERROR). After every round: listing, ownership, KILL calls,
+// watcher takes it to ERROR); a destroy that arrives WHILE the environment is being
+// created (`newd`: the deployment is held open at a launch gate, the harness learns
+// the id from GetEnvironments and opens the gate only when the core has logged that
+// the teardown waits for the transition mutex). After every round: listing, ownership, KILL calls,
 // active detectors, cancelled calls; a final creation needing the same detector
 // checks that it is free again.
 package c06
@@ -225,6 +228,57 @@ func matrix() []fw.Case {
 			}
 		}
 	}
+	// a destroy that arrives WHILE the environment is being created (the environment is addressable from the moment it is
+	// entered in the map; the deployment is held open at a launch gate until the core has logged that the teardown waits
+	// for the transition mutex): creation succeeding / failing at deployment (the held task dies, a sibling dies, a slow
+	// sibling) / failing at configuration, plain tasks, DESTROY hooks, pending calls; every flag combination on the plain
+	// shapes, force x keepTasks on the others; afterwards a creation needing the same detector and a cleanup
+	{
+		type shape struct {
+			tag   string
+			roles []*sx.Node
+			all   bool
+		}
+		shapes := []shape{
+			{"ok", []*sx.Node{ownh.OKT(1, 1), ownh.OKT(2, 2)}, true},
+			{"ok", []*sx.Node{ownh.OKT(1, 1)}, false},
+			{"ok-hooks", []*sx.Node{ownh.OKT(1, 1), ownh.OKT(2, 4), ownh.H(3, 2, 10, false, "ok", "ok")}, true},
+			{"ok-hooks", []*sx.Node{ownh.OKT(1, 1), ownh.H(3, 2, 10, false, "ok", "ok"), ownh.H(4, 3, 20, true, "ok", "fail"), ownh.P()}, false},
+			{"ok-calls", []*sx.Node{ownh.OKT(1, 1), ownh.OKT(2, 3), ownh.P()}, false},
+			{"deploy-fails", []*sx.Node{ownh.T(1, 1, "die", "ok", "ok", "ok"), ownh.OKT(2, 2)}, true},
+			{"deploy-fails", []*sx.Node{ownh.OKT(1, 1), ownh.T(2, 2, "die", "ok", "ok", "ok"), ownh.OKT(3, 3)}, false},
+			{"deploy-fails", []*sx.Node{ownh.OKT(1, 1), ownh.T(2, 2, "slow", "ok", "ok", "ok")}, false},
+			{"deploy-fails", []*sx.Node{ownh.T(1, 1, "slow", "ok", "ok", "ok"), ownh.OKT(2, 2), ownh.H(3, 3, 10, false, "ok", "ok")}, false},
+			{"configure-fails", []*sx.Node{ownh.T(1, 1, "ok", "stay", "ok", "ok"), ownh.OKT(2, 2)}, true},
+			{"configure-fails", []*sx.Node{ownh.OKT(1, 1), ownh.T(2, 2, "ok", "err", "ok", "ok"), ownh.H(3, 3, 10, false, "ok", "ok")}, false},
+			{"configure-fails", []*sx.Node{ownh.OKT(1, 1), ownh.T(2, 2, "ok", "err", "ok", "failed"), ownh.P()}, false},
+		}
+		for i, sh := range shapes {
+			fl := []int{0, 1, 4, 5}
+			if sh.all {
+				fl = []int{0, 1, 2, 3, 4, 5, 6, 7}
+			}
+			for _, f := range fl {
+				force, allow, keep := flags(f)
+				b := &ownh.B{}
+				var live int
+				withLive := (i+f)%3 == 0
+				if withLive {
+					live = b.Env("ok", []int{3}, ownh.OKT(81, 1), ownh.OKT(82, 3))
+				}
+				k := b.Env("ok", []int{1}, sh.roles...)
+				p := probe(b, []int{2})
+				if withLive {
+					b.Round(ownh.New(live))
+				}
+				b.Round(ownh.NewD(k, force, allow, keep)).Round(ownh.New(p)).Round(ownh.Cleanup())
+				if withLive {
+					b.Round(ownh.Destroy(live, false, false, false))
+				}
+				add("create-destroy-overlap-"+sh.tag, b)
+			}
+		}
+	}
 	// pending calls, two destroys at once, destroy next to another environment's control
 	{
 		b := &ownh.B{}
@@ -248,6 +302,7 @@ func genCase(r *rng.R) fw.Case {
 	next := 0
 	nRounds := r.Range(3, 7)
 	lossTag := ""
+	overlapTag := ""
 	for i := 0; i < nRounds; i++ {
 		// now and then an executor (or, once every environment exists, an agent other than the probe's) is lost: a round of its own
 		if len(created) > 0 && r.P(1, 6) {
@@ -275,6 +330,15 @@ func genCase(r *rng.R) fw.Case {
 		for j := 0; j < n; j++ {
 			switch {
 			case next < nEnv && (len(created) == 0 || r.P(1, 3)):
+				if j == 0 && r.P(1, 5) {
+					// the creation is destroyed while it is in flight: a round of its own
+					ops = append(ops, ownh.NewD(next, r.P(1, 2), r.P(1, 2), r.P(1, 3)))
+					newHere = append(newHere, next)
+					next++
+					overlapTag = "with-overlap"
+					j = n
+					break
+				}
 				ops = append(ops, ownh.New(next))
 				newHere = append(newHere, next)
 				next++
@@ -312,6 +376,9 @@ func genCase(r *rng.R) fw.Case {
 	tags := []string{"random", fmt.Sprintf("envs=%d", nEnv)}
 	if lossTag != "" {
 		tags = append(tags, "random-"+lossTag)
+	}
+	if overlapTag != "" {
+		tags = append(tags, "random-"+overlapTag)
 	}
 	return fw.Case{Input: b.String(), Tags: tags}
 }
@@ -362,6 +429,7 @@ func init() {
 		Generate:   generate,
 		RunImpl:    ownh.RunRetry,
 		Nontrivial: nontrivial,
+		ObsTags:    ownh.OverlapTags,
 		Rule: "systematic part: destroy in {CONFIGURED, RUNNING, DEPLOYED, ERROR after failed START, ERROR after failed STOP} x all 8 combinations of " +
 			"force/allowInRunningState/keepTasks (each followed by a creation needing the same detector, a second destroy and a cleanup), the STOP/RESET issued by destroy failing, " +
 			"creation failing at template load (no workflow, no task class), detector check, deployment (task dies at launch with prompt / slow siblings, slow task only, no such host) " +
@@ -369,8 +437,10 @@ func init() {
 			"after_DESTROY overriding DESTROY; failing hook) x force x keepTasks, pending calls, concurrent destroys, " +
 			"a task of the environment lost its executor / its agent (FAILURE event with and without the terminal status updates) in CONFIGURED / RUNNING / DEPLOYED before a destroy " +
 			"(all 8 flag combinations once, force+keepTasks and one more every time), one executor / agent serving two environments, a lost DESTROY hook task, a loss after a destroy that kept the tasks, " +
-			"the loss hitting inside the creation's CONFIGURE (held at a gate) which then fails (stay / ERROR: failure tail) or succeeds (destroyed afterwards, keepTasks); random part: 1–3 environments (20% of roles with a scripted failure, " +
-			"35% with hooks, 15% with pending calls), 3–7 rounds of 1–2 concurrent requests dominated by destroys, one round in six a lost executor / agent instead; each scenario = one real core in its own process; " +
+			"the loss hitting inside the creation's CONFIGURE (held at a gate) which then fails (stay / ERROR: failure tail) or succeeds (destroyed afterwards, keepTasks), " +
+			"a destroy issued WHILE the environment is being created (deployment held open at a launch gate until the core has logged that the teardown waits for the transition mutex): creation succeeding (plain tasks, DESTROY hooks at 1-2 weights, pending call) / " +
+			"failing at deployment (held task dies, sibling dies, slow sibling) / failing at configuration (stay, ERROR, with hook, with call), all 8 flag combinations on four shapes, force x keepTasks on the others, every third next to a live environment; random part: 1–3 environments (20% of roles with a scripted failure, " +
+			"35% with hooks, 15% with pending calls), 3–7 rounds of 1–2 concurrent requests dominated by destroys, one round in six a lost executor / agent instead, one creation in five destroyed while in flight (random flags); each scenario = one real core in its own process; " +
 			"non-trivial = >=3 rounds, >=3 requests, a creation and (a destroy or a second creation); distinct by input text",
 		Shrink:  ownh.Shrink,
 		Workers: 6,
@@ -381,10 +451,14 @@ func init() {
 		},
 		Assumptions: []string{
 			"the simulated master answers KILL at once (fairness premise: the master eventually reports killed tasks; KillTasks blocks on the acknowledgement)",
-			"a call that has not returned after 12 s (normal: 0.05–5 s) is recorded as a hang only when the core itself lists the environment inside transition DESTROY; otherwise the case is inconclusive",
+			"a call that has not returned after 12 s (normal: 0.05–5 s) is recorded as a hang only when the core itself lists the environment inside transition DESTROY, or — if the core no longer answers GetEnvironment(s) either — " +
+				"when its goroutine dump (SIGQUIT; the scenario ends) shows the environment manager's RWMutex deadlocked: a goroutine in sync.RWMutex.RLock inside (*Manager).environment called from TeardownEnvironment and one in sync.RWMutex.Lock in a method of (*Manager), " +
+				"on adjacent semaphore words (snapshot `wedged`, finding teardown_recursive_rlock); otherwise the case is inconclusive",
 			"'pending calls cancelled' is read from the core's debug log line of the call goroutine (hook:<trigger>:<role> cancelled)",
 			"whether an environment's watcher reacts to a lost critical task (GO_ERROR, STOP of the RUNNING tasks, 0.5 s later) is read from the core's log line of subscribeToWfState and fed to the model; " +
 				"the harness waits for it exactly when the environment is listed, not in transition, and its workflow was not in ERROR before (ceiling reached = inconclusive)",
+			"whether a destroy issued during a creation really overlapped it is read from the core's log line 'environment teardown attempt delayed: transition … in progress' (observation field OV, evidence tags overlap-real:<transition> / overlap-sequential); " +
+				"a destroy that was not delayed is judged as a sequential one, nothing is concluded from timing",
 			"release failures cannot be scripted through the API (they need a task locked by another environment); that branch is covered by the model and its theorems only",
 		},
 	})
